@@ -570,6 +570,10 @@ class Interp:
             return r if isinstance(op, ast.In) else logical_not(r)
         o = self._CMPOPS[type(op)]
         if isinstance(a, NDArr) or isinstance(b, NDArr):
+            if isinstance(a, (list, tuple)):
+                a = A.array_from_nested(a)
+            if isinstance(b, (list, tuple)):
+                b = A.array_from_nested(b)
             return A.elementwise(lambda x, y: compare(o, x, y), a, b, name=o, kind="bool")
         if isinstance(a, Instance) and a.cls is not None and o in ("==", "!="):
             m, _ = a.cls.lookup("__eq__")
